@@ -199,7 +199,7 @@ func runC12(tier string, seed uint64, idx int) core.Result {
 	rng := core.CaseSeed(seed, "C12.model", idx)
 	h, err := newSeqHarness("C12", r, rng, true)
 	if err != nil {
-		r.Inconclusive(err.Error())
+		r.Violate("C12/node-cannot-start", "a fresh RF=1 node cannot become leader: "+scrub(err.Error()), nil)
 		return r.Done()
 	}
 	defer h.Close()
